@@ -68,9 +68,9 @@ func init() {
 		},
 		TimeoutSec: func(t string) int {
 			if t == ev.Thorough {
-				return 3000
+				return 7200
 			}
-			return 600
+			return 900
 		},
 		Run: run,
 	})
